@@ -62,14 +62,16 @@ type End struct {
 	FaultAt   func(op Op) *Fault
 	WriteGate func(op Op, data []byte) // called after the bytes reached the peer, before Write returns
 	Yield     int                      // number of Gosched calls at Write entry (interleaving pressure)
+	MaxBuffer int                      // >0: a Write blocks while the peer holds this many unread bytes (like a full socket buffer)
 
-	ops          int64
-	Reads        int64
-	Writes       int64
-	BytesRead    int64
-	BytesWritten int64
-	writeSizes   []int
-	progress     *int64
+	ops           int64
+	Reads         int64
+	Writes        int64
+	BytesRead     int64
+	BytesWritten  int64
+	BlockedWrites int64 // writers currently waiting for room (MaxBuffer)
+	writeSizes    []int
+	progress      *int64
 }
 
 // Pair returns two connected ends. progress, if not nil, is incremented on every byte movement.
@@ -171,6 +173,7 @@ func (e *End) Read(p []byte) (int, error) {
 	}
 	copy(p, h.buf[:n])
 	h.buf = h.buf[n:]
+	h.cond.Broadcast()
 	h.mu.Unlock()
 	atomic.AddInt64(&e.BytesRead, int64(n))
 	e.bump()
@@ -223,9 +226,21 @@ func (e *End) Write(p []byte) (int, error) {
 func (e *End) deliver(p []byte) error {
 	h := e.out
 	h.mu.Lock()
+	for e.MaxBuffer > 0 && len(h.buf) >= e.MaxBuffer && !h.rclosed && !h.wclosed {
+		if closed, st := e.state(); closed || st != nil {
+			break
+		}
+		atomic.AddInt64(&e.BlockedWrites, 1)
+		h.cond.Wait() // woken when the peer reads, or when either side closes
+		atomic.AddInt64(&e.BlockedWrites, -1)
+	}
 	if h.rclosed || h.wclosed {
 		h.mu.Unlock()
 		return fmt.Errorf("ctl: write on closed connection: %w", io.ErrClosedPipe)
+	}
+	if closed, _ := e.state(); closed {
+		h.mu.Unlock()
+		return ErrClosed
 	}
 	h.buf = append(h.buf, p...)
 	h.cond.Broadcast()
